@@ -784,4 +784,13 @@ theorem gen_source_Operation_f_trackerStatus : Gen.Operation.f_trackerStatus = E
 theorem gen_source_Operation_f_TrackerStatusToOperationPhase : Gen.Operation.f_TrackerStatusToOperationPhase = Expected.Operation.f_TrackerStatusToOperationPhase := rfl
 
 
+/-! ### inventory of the anchored files (round 8): a function ADDED to one of them has no transcribed twin above — these notice it -/
+
+theorem gen_inventory_Stateless : Gen.Stateless.funcs =
+    ["f_New", "f_Tracker_opWorker", "f_applyPinF", "f_Tracker_pin", "f_Tracker_unpin", "f_Tracker_enqueue", "f_Tracker_SetClient", "f_Tracker_Shutdown", "f_Tracker_Track", "f_Tracker_Untrack", "f_Tracker_StatusAll", "f_Tracker_statusAll", "f_Tracker_Status", "f_Tracker_RecoverAll", "f_Tracker_Recover", "f_Tracker_recoverWithPinInfo", "f_Tracker_ipfsStatusAll", "f_Tracker_localStatus", "f_Tracker_OpContext", "f_addError"] := rfl
+theorem gen_inventory_Optracker : Gen.Optracker.funcs =
+    ["f_OperationTracker_String", "f_NewOperationTracker", "f_OperationTracker_TrackNewOperation", "f_OperationTracker_Clean", "f_OperationTracker_Status", "f_OperationTracker_SetError", "f_OperationTracker_unsafePinInfo", "f_OperationTracker_Get", "f_OperationTracker_GetExists", "f_OperationTracker_GetAll", "f_OperationTracker_CleanAllDone", "f_OperationTracker_OpContext", "f_OperationTracker_Filter", "f_OperationTracker_filterOps", "f_filterOpsMap", "f_filter"] := rfl
+theorem gen_inventory_Operation : Gen.Operation.funcs =
+    ["f_NewOperation", "f_Operation_String", "f_Operation_Cid", "f_Operation_Context", "f_Operation_Cancel", "f_Operation_Phase", "f_Operation_SetPhase", "f_Operation_Error", "f_Operation_SetError", "f_Operation_Type", "f_Operation_Pin", "f_Operation_Timestamp", "f_Operation_Cancelled", "f_Operation_ToTrackerStatus", "f_Operation_StatusSnapshot", "f_trackerStatus", "f_TrackerStatusToOperationPhase"] := rfl
+
 end CV.C05
